@@ -98,7 +98,11 @@ def draw_case(seed):
             seen.add(m)
             dm.append({"name": m, "ret": "V", "params": [], "access": 9,
                        "code": {"regs": 1, "insns": [["const4", 0, 1], ["return-void"]], "tries": []}})
-        classes.append({"desc": d, "access": 1, "super": models.OBJ, "interfaces": [], "source": None,
+        src_file = None
+        if r.random() < 0.25:
+            src_file = r.choice(["A.java", "../x.java", "/abs/x.java", "a/../../x.java", "..", "x/y.java", "../../../../e.java",
+                                 "A.kt", "", "\u2025/x.java", "..\\x.java"])
+        classes.append({"desc": d, "access": 1, "super": models.OBJ, "interfaces": [], "source": src_file,
                         "sfields": [], "ifields": [], "dmethods": dm, "vmethods": []})
     model = {"classes": classes, "strings_extra": []}
     er = core.rng(seed, "environment")
